@@ -134,6 +134,8 @@ impl<const BITS: usize, const LIMBS: usize> Uint<BITS, LIMBS> {
             let overflow = mul_nx1(&mut power.limbs, base);
             if overflow != 0 || power.limbs[LIMBS - 1] > Self::MASK {
                 // Following digits must be zero
+                #[cfg(recmo_uint_verif)]
+                crate::verif_hooks::hit(crate::verif_hooks::Hook::from_base_le_power_overflow);
                 break;
             }
         }
